@@ -65,6 +65,11 @@ func genLine(r *sim.Rng, maxLen int) string {
 	if r.Chance(1, 8) {
 		return ""
 	}
+	if r.Chance(1, 9) {
+		// a line of blanks only (column padding of an empty table row): as the first or last line of
+		// an output it is part of the surrounding blank lines that are trimmed
+		return strings.Repeat(" ", 1+r.Intn(6))
+	}
 	var parts []string
 	n := 1 + r.Intn(5)
 	for i := 0; i < n; i++ {
